@@ -151,6 +151,39 @@ def run(tier, seed, replay=None):
                                ("allow git push", "git push $((rm x) )", ["echo $((rm x) )"]),
                                ("allow git *", "git push > nogrant", ["echo > nogrant"])]:
         check(rule, text, others, "handler-cli")
+    # round seven (seeded change C08v: rule lookups cached by the command's words alone): a rule whose pattern is a PATH matches
+    # a relative spelling only in the directory where that spelling names the file.  The same words written again behind a
+    # directory change are another command: the rule may not decide it.  Floor: the piece behind the cd judged alone
+    # (fresh configuration object); every composition form, the matching occurrence first, last, or in between.
+    path_rules = ["allow /jail/tools/build", "allow /jail/tools/*", "allow /jail/tools/build *", "allow /jail/tools/build|"]
+    spellings = ["tools/build", "./tools/build", "tools/build x", "tools/../tools/build"]
+    dirs = ["/other", "sub", "..", "/jail/tools", "/"]
+    ctx_templates = ["{M} && cd {D} && {M}", "{M}; cd {D}; {M}", "{M} || cd {D} || {M}", "{M}\ncd {D}\n{M}", "{M} | ( cd {D} && {M} )",
+                     "( cd {D} && {M} ); {M}", "( cd {D} && {M} ) | {M}", "if {M}; then cd {D}; {M}; fi", "{M}; ( cd {D}; {M} ); {M}",
+                     "{M} && { cd {D} && {M}; }", "for v in a; do {M}; cd {D}; {M}; done", "{M}; cd {D} && ls && {M}",
+                     "x=$({M}); cd {D} && {M}", "{M} > /jail/out/f; cd {D}; {M}", "time {M}; cd {D}; {M}", "nice {M}; cd {D}; nice {M}",
+                     "case a in a) {M};; esac; cd {D}; {M}", "fn() { cd {D}; {M}; }; {M}; fn"]
+    for rule, m, d in itertools.product(path_rules if tier == "thorough" else path_rules[:3], spellings if tier == "thorough" else spellings[:3], dirs):
+        if rule.endswith("build|") and " " in m:
+            continue
+        piece = f"cd {d} && {m}"
+        cfg1 = parse_config(BASE_CFG + rule + "\n")
+        floor = verdict(cfg1, piece)
+        out.count("context_floor", floor)
+        for tmpl in ctx_templates:
+            text = tmpl.replace("{M}", m).replace("{D}", d)
+            cfgw = parse_config(BASE_CFG + rule + "\n")
+            vw = verdict(cfgw, text)
+            out.case([rule, text])
+            out.count("shape", "same-words-behind-cd")
+            out.count("verdict_with_rule", vw)
+            if bg.ORDER[vw] < bg.ORDER[floor]:
+                out.violations.append({"kind": "masked", "what": f"with rule {rule!r} the verdict is {vw}, but the same words behind `cd {d}` name another file: "
+                                                                 f"`{piece}` alone is {floor}", "program": text, "rule": rule, "others": [piece], "config": BASE_CFG,
+                                       "signature_text": f"{rule} :: {text}"})
+            mv = model_analyze(model, cfgw, text, cwd)
+            if mv != vw:
+                out.disagreements.append({"correspondence": "Walker.analyze_nodes <-> analyzer.analyze", "program": text, "rule": rule, "model": mv, "impl": vw})
     n_rand = 200 if tier == "quick" else 5000
     cmds = bg.atoms_cmd()
     rds = bg.atoms_redir()
